@@ -1393,6 +1393,58 @@ def w16(rep, f_foam):
         rep.ok("W16", "tree-keeps-its-own-copy")
 
 
+W17_MAKERS = ("bintCopy", "bintNew", "bintFrString", "bintFrPlacevS", "bintAllocPlaces", "bintAlloc", "xintCopy", "bintNegate",
+              "bintAbs", "bintPlus", "bintMinus", "bintTimes", "bintFrBuffer")
+
+
+def w17(rep, f_foam):
+    """Writing a unit does not consume it: the FOAM tree is written to the .ao first and to .fm / .c / .lsp afterwards in the
+    same run.  The writer needs the stored form of a big integer (sign and places) and makes one -- `xintStore(bintCopy(x))`
+    -- which it frees after writing.  xintStore(x) alone returns x itself when x is already stored (2^62 and up), so freeing
+    that result frees the tree's own constant: the .fm written next shows (BInt 0), the C generator faults.  In foam.c every
+    local passed to bintFree holds, in all its assignments, a value made by a copying or creating call; the only bintFree of
+    a tree slot is in the tree's own destructor."""
+    n = 0
+    for name, fn in sorted(f_foam.funcs.items()):
+        if "body" not in fn or not fn.get("file", "").endswith("foam.c"):
+            continue
+        frees = calls(fn["body"], "bintFree")
+        if not frees:
+            continue
+        assigns = {}
+        for x in walk(fn["body"]):
+            if x["k"] == "BinaryOperator" and x["op"] == "=" and (strip(x["c"][0]) or {}).get("k") == "DeclRefExpr":
+                assigns.setdefault(strip(x["c"][0])["n"], []).append(x["c"][1])
+            elif x["k"] == "DeclStmt":
+                for d in x.get("decls", []):
+                    if d.get("init") is not None:
+                        assigns.setdefault(d["n"], []).append(d["init"])
+        for c in frees:
+            a = strip(c["c"][1])
+            n += 1
+            key = "writer-frees-its-own-copy:%s@%d" % (name, n)
+            where = "foam.c:%d (%s)" % (c["l"], name)
+            if a is None or a["k"] != "DeclRefExpr" or a.get("dk") == "parm":
+                if name in ("foamFreeNode", "foamFree"):
+                    rep.ok("W17", key, nontrivial=False)
+                else:
+                    rep.violation("W17", "writer-frees-its-own-copy:%s" % name, where,
+                                  "bintFree(%s) outside the tree's destructor frees a big integer the tree still refers to"
+                                  % render(a)[:40])
+                continue
+            vals = assigns.get(a["n"], [])
+            borrowed = [v for v in vals if not any(y["k"] == "CallExpr" and y.get("callee") in W17_MAKERS for y in walk(v))]
+            if vals and not borrowed:
+                rep.ok("W17", key)
+            else:
+                rep.violation("W17", "writer-frees-its-own-copy:%s" % name, where,
+                              "`%s` is freed here, but it is assigned `%s`, which is not a copy: xintStore returns its argument "
+                              "itself when the integer is already stored (|value| >= 2^62), so the constant inside the FOAM tree is "
+                              "freed while the tree is still to be written as .fm or compiled to C in the same run ((BInt 0) in "
+                              "the .fm, a fault with -Fao -Fc)" % (a["n"], render(strip(borrowed[0]))[:50] if borrowed else "?"))
+    rep.floor("bintFree calls in foam.c", n, 2)
+
+
 def run(tier, only=None):
     rep = common.Report("C05", tier, EXPLANATION)
     f_foam = common.extract("foam.c", all_trees=True)
@@ -1419,6 +1471,7 @@ def run(tier, only=None):
     w11(rep)
     w12(rep, f_foam)
     w16(rep, f_foam)
+    w17(rep, f_foam)
     from . import c19_float, immed
     immed.report(rep, "W14", units=["foam.c", "sexpr.c"], floor=2)      # integers of the text form (.fm) read back in full
     c19_float.sentinels(rep, "W13")
